@@ -62,17 +62,16 @@ def run(chk, prog):
     # ---- D1 -----------------------------------------------------------------------------------
     fn = u.func("TravelDirections::output_to_input_direction")
     chk.analysed(function=fn["full"])
-    sw, arms, default = switch_arms(fn)
+    from ..tables import eval_table_function
     o2i = {}
     n = 0
     for v in D.all27():
-        arm = arms.get(v)
-        got = C.const_int(arm_return(arm)) if arm is not None and arm_return(arm) is not None else None
+        got, rnode = eval_table_function(fn, [v])
         o2i[v] = got
         want = D.opposite(v)
         n += 1
         chk.require(got == want, "D1", "output_to_input_direction(%s) is the opposite direction" % D.name(v),
-                    where(arm_return(arm), fn) if arm is not None and arm_return(arm) else where(fn),
+                    where(rnode, fn) if rnode is not None else where(fn),
                     "a packet leaving through %s (signature %s) enters the neighbour through %s, expected %s (%s)" %
                     (D.name(v), "".join(D.sig[v]), D.name(got) if got is not None else None, D.name(want),
                      "".join(D.sig[want])), function=fn["full"], construct="o2i %s" % D.name(v))
@@ -295,9 +294,9 @@ def run(chk, prog):
             continue
         fn = fns[0]
         chk.analysed(function=fn["full"])
-        inner = [s for s in C.walk_stmt(fn["body"]) if s.get("k") == "While" and
+        inner = [s for s in C.walk_stmt(fn["body"]) if s.get("k") in ("While", "For") and
                  any(C.is_call(x, name="update_intensities") for x in C.walk_stmt(s["body"]))]
-        inner = [s for s in inner if not any(t is not s and t.get("k") == "While" and
+        inner = [s for s in inner if not any(t is not s and t.get("k") in ("While", "For") and
                                              any(C.is_call(x, name="update_intensities") for x in C.walk_stmt(t["body"]))
                                              for t in C.walk_stmt(s["body"]))]
         n += 1
@@ -305,7 +304,9 @@ def run(chk, prog):
         detail = "fold loop not found"
         if okk:
             lp = inner[0]
-            g = C.CFG(fn, body=lp["body"], name="fold loop")
+            region = lp["body"] if not (lp.get("k") == "For" and lp.get("inc") is not None) else \
+                {"k": "Block", "l": lp.get("l"), "s": [lp["body"], lp["inc"]]}
+            g = C.CFG(fn, body=region, name="fold loop", loop_body=True)
             incs = [nd for nd in g.nodes if nd.kind == "stmt" and nd.ast.get("k") == "Un" and
                     nd.ast["op"] in ("pre++", "post++")]
             calls = [nd for nd in g.nodes if nd.kind == "stmt" and C.is_call(C.strip_casts(nd.ast), name="update_intensities")]
